@@ -181,3 +181,18 @@ func compareRoot(s drive.Spec, o drive.Outcome, res refsem.Result) *fw.Violation
 	}
 	return nil
 }
+
+// mustCheck is check for a program that was written by hand for one purpose. If the model declines such a program the family
+// explores nothing and nobody notices; so a decline is recorded as an incomplete run (exhaustive: false, exit status unchanged)
+// and shows in the summary line.
+func (pc *progCase) mustCheck(c *fw.Ctx, family string) *fw.Violation {
+	v, res, skipped := pc.check(c)
+	if skipped {
+		why := res.Unfixed
+		if res.Aborted {
+			why = "model step budget"
+		}
+		c.Incompl("a hand-written program of the family '" + family + "' was declined by the model (" + why + ")")
+	}
+	return v
+}
